@@ -2,7 +2,7 @@
 """setup_cmd: verify the pre-installed tools are present; builds nothing persistent."""
 import shutil, subprocess, sys
 ok = True
-for t in ('cbmc', 'goto-cc', 'goto-instrument', 'g++', 'python3'):
+for t in ('cbmc', 'goto-cc', 'goto-instrument', 'g++', 'python3', 'z3'):      # z3: the two quantified U-mint jobs
     p = shutil.which(t)
     print('%-16s %s' % (t, p))
     ok = ok and bool(p)
